@@ -302,6 +302,8 @@ struct BodyVisitor<'c, 'a> {
     inner_done: Vec<String>,
     closures_done: Vec<usize>,
     let_as_done: Vec<bool>,
+    let_as_hits: Vec<usize>,
+    map_fold_done: bool,
     fn_path: String,
 }
 
@@ -367,7 +369,11 @@ impl<'c, 'a, 'ast> Visit<'ast> for BodyVisitor<'c, 'a> {
     }
 
     fn visit_block(&mut self, b: &'ast Block) {
+        let mut vx_skip: Vec<usize> = vec![];
         for (i, st) in b.stmts.iter().enumerate() {
+            if vx_skip.contains(&i) {
+                continue;
+            }
             let (s, e) = self.cx.f.range(st.span());
             // R2 at statement level
             let attrs: &[Attribute] = match st {
@@ -408,30 +414,113 @@ impl<'c, 'a, 'ast> Visit<'ast> for BodyVisitor<'c, 'a> {
             // type parameters). The rewrite is refused unless the whitespace-stripped text of <init> equals the quoted text: any change of the real
             // initialiser makes the run "undecided" (exit 2) instead of silently keeping the assumption. The replaced text is not visited.
             if let Stmt::Local(l) = st {
+                // the bound name; for a non-identifier pattern (`let (a, b) = ..`) the whitespace-stripped pattern text, e.g. `(a,b)`
                 let name = match &l.pat {
                     syn::Pat::Ident(pi) => Some(pi.ident.to_string()),
                     syn::Pat::Type(pt) => match &*pt.pat {
                         syn::Pat::Ident(pi) => Some(pi.ident.to_string()),
-                        _ => None,
+                        other => Some(self.cx.f.slice(other.span()).chars().filter(|c| !c.is_whitespace()).collect::<String>()),
                     },
-                    _ => None,
+                    other => Some(self.cx.f.slice(other.span()).chars().filter(|c| !c.is_whitespace()).collect::<String>()),
                 };
-                if let Some(k) = name.and_then(|n| self.d.let_as.iter().position(|la| la.var == n)) {
-                    if !self.let_as_done[k] {
-                        let la = &self.d.let_as[k];
-                        let init = l.init.as_ref().unwrap_or_else(|| die(&format!("let-as: `let {}` has no initialiser in {}", la.var, self.fn_path)));
-                        if init.diverge.is_some() {
-                            die(&format!("let-as: `let {} .. else` is not supported in {}", la.var, self.fn_path));
+                let mut hit: Option<usize> = None;
+                if let Some(n) = &name {
+                    for (k, la) in self.d.let_as.iter().enumerate() {
+                        if &la.var == n {
+                            self.let_as_hits[k] += 1;
+                            if self.let_as_hits[k] == la.nth && !self.let_as_done[k] {
+                                hit = Some(k);
+                            }
                         }
-                        let (is, ie) = self.cx.f.range(init.expr.span());
-                        let strip = |t: &str| t.chars().filter(|c| !c.is_whitespace()).collect::<String>();
-                        let got = strip(&self.cx.f.text[is..ie]);
-                        let want = strip(&la.expect.join(" "));
-                        if want.is_empty() || got != want {
-                            die(&format!("let-as: the initialiser of `{}` in {} differs from the text the assumed contract was written for", la.var, self.fn_path));
-                        }
+                    }
+                }
+                if let Some(k) = hit {
+                    let la = &self.d.let_as[k];
+                    let init = l.init.as_ref().unwrap_or_else(|| die(&format!("let-as: `let {}` has no initialiser in {}", la.var, self.fn_path)));
+                    if init.diverge.is_some() {
+                        die(&format!("let-as: `let {} .. else` is not supported in {}", la.var, self.fn_path));
+                    }
+                    let (is, ie) = self.cx.f.range(init.expr.span());
+                    let strip = |t: &str| t.chars().filter(|c| !c.is_whitespace()).collect::<String>();
+                    let got = strip(&self.cx.f.text[is..ie]);
+                    let want = strip(&la.expect.join(" "));
+                    if want.is_empty() || got != want {
+                        die(&format!("let-as: the initialiser of `{}` in {} differs from the text the assumed contract was written for", la.var, self.fn_path));
+                    }
+                    if la.call == "drop" {
+                        self.cx.edit(s, e, format!("/* R19: `let {}` dropped (part of the contract of a later let-as helper) */", la.var), 0, "R19-let-as");
+                    } else {
                         self.cx.edit(is, ie, la.call.clone(), 0, "R19-let-as");
-                        self.let_as_done[k] = true;
+                    }
+                    self.let_as_done[k] = true;
+                    continue;
+                }
+                // R21 (opt-in `//@ map-fold-loop V`): see directives.rs::MapFold. A modelling assumption on `core` (Map::next = inner.next().map(f),
+                // fold = loop over next, expect = unwrap-or-panic), logged; BODY and E are the source texts, BODY is visited (rewrites, loop specs) as usual.
+                if let (Some(mf), Some(n)) = (&self.d.map_fold, &name) {
+                    if &mf.var == n && !self.map_fold_done {
+                        let shape = (|| -> Option<()> {
+                            let init = l.init.as_ref()?;
+                            let mc = match &*init.expr { Expr::MethodCall(mc) if mc.method == "map" && mc.args.len() == 1 && mc.turbofish.is_none() => mc, _ => return None };
+                            let cl = match &mc.args[0] { Expr::Closure(c) if c.inputs.len() == 1 => c, _ => return None };
+                            let x = match &cl.inputs[0] { syn::Pat::Ident(pi) if pi.by_ref.is_none() && pi.subpat.is_none() => pi.ident.to_string(), _ => return None };
+                            let recv = self.cx.f.slice(mc.receiver.span()).to_string();
+                            // S2: let H = V.next().expect(MSG);
+                            let (h, msg, s2) = match b.stmts.get(i + 1)? {
+                                st2 @ Stmt::Local(l2) => {
+                                    let h = match &l2.pat { syn::Pat::Ident(pi) if pi.by_ref.is_none() && pi.mutability.is_none() => pi.ident.to_string(), _ => return None };
+                                    let e2 = &l2.init.as_ref()?.expr;
+                                    let ex = match &**e2 { Expr::MethodCall(m) if m.method == "expect" && m.args.len() == 1 => m, _ => return None };
+                                    let nx = match &*ex.receiver { Expr::MethodCall(m) if m.method == "next" && m.args.is_empty() => m, _ => return None };
+                                    match &*nx.receiver { Expr::Path(p) if p.path.is_ident(n.as_str()) => {}, _ => return None };
+                                    (h, self.cx.f.slice(ex.args[0].span()).to_string(), self.cx.f.range(st2.span()))
+                                }
+                                _ => return None,
+                            };
+                            // S3: the next statement contains exactly one `V.fold(H, |t, p| E)`
+                            struct FindFold<'x> { v: &'x str, found: Vec<&'x syn::ExprMethodCall> }
+                            impl<'x> Visit<'x> for FindFold<'x> {
+                                fn visit_expr_method_call(&mut self, m: &'x syn::ExprMethodCall) {
+                                    if m.method == "fold" && matches!(&*m.receiver, Expr::Path(p) if p.path.is_ident(self.v)) {
+                                        self.found.push(m);
+                                    }
+                                    syn::visit::visit_expr_method_call(self, m);
+                                }
+                            }
+                            let st3 = b.stmts.get(i + 2)?;
+                            if b.stmts.len() != i + 3 { return None; }
+                            let mut ff = FindFold { v: n.as_str(), found: vec![] };
+                            ff.visit_stmt(st3);
+                            if ff.found.len() != 1 { return None; }
+                            let fm = ff.found[0];
+                            if fm.args.len() != 2 { return None; }
+                            match &fm.args[0] { Expr::Path(p) if p.path.is_ident(h.as_str()) => {}, _ => return None };
+                            let fc = match &fm.args[1] { Expr::Closure(c) if c.inputs.len() == 2 => c, _ => return None };
+                            let t = match &fc.inputs[0] { syn::Pat::Ident(pi) if pi.by_ref.is_none() && pi.subpat.is_none() => pi.ident.to_string(), _ => return None };
+                            let p = match &fc.inputs[1] { syn::Pat::Ident(pi) if pi.by_ref.is_none() && pi.subpat.is_none() => pi.ident.to_string(), _ => return None };
+                            let etxt = self.cx.f.slice(fc.body.span()).to_string();
+                            // split the raw lines
+                            let mut parts: Vec<Vec<String>> = vec![vec![]];
+                            for ln in &mf.lines {
+                                if ln.trim() == "---" { parts.push(vec![]); } else { parts.last_mut().unwrap().push(ln.clone()); }
+                            }
+                            while parts.len() < 3 { parts.push(vec![]); }
+                            let (bs, be) = self.cx.f.range(cl.body.span());
+                            let it = match &mf.iter_name { Some(nm) => format!("{}: ", nm), None => String::new() };
+                            self.cx.edit(s, bs, format!("let mut vx_acc: Option<{}> = None;\n        for {} in {}{}\n{}\n        {{ let vx_item = ", mf.ty.clone().unwrap_or("_".to_string()), x, it, recv, parts[0].join("\n")), 0, "R21-map-fold-loop");
+                            self.cx.edit(be, e, format!(";\n{}\n            vx_acc = Some(match vx_acc {{ None => vx_item, Some({}) => {{ let {} = vx_item; {} }} }});\n{}\n        }}", parts[1].join("\n"), t, p, etxt, parts[2].join("\n")), -300000, "R21-map-fold-loop");
+                            self.cx.edit(s2.0, s2.1, "/* R21: hi_column = first item of the loop above */".to_string(), 0, "R21-map-fold-loop");
+                            let (fs, fe) = self.cx.f.range(fm.span());
+                            self.cx.edit(fs, fe, format!("vx_acc.expect({})", msg), 0, "R21-map-fold-loop");
+                            self.visit_expr(&cl.body);
+                            Some(())
+                        })();
+                        if shape.is_none() {
+                            die(&format!("map-fold-loop: `{}` in {} is not of the form `let mut V = R.map(|x| B); let H = V.next().expect(M); <tail with one V.fold(H, |t, p| E)>`", mf.var, self.fn_path));
+                        }
+                        self.map_fold_done = true;
+                        vx_skip.push(i + 1);
+                        vx_skip.push(i + 2);
                         continue;
                     }
                 }
@@ -757,6 +846,12 @@ fn process_fn(cx: &mut Ctx, sig: &syn::Signature, block: &Block, d: &FnDirective
     if !d.spec.is_empty() {
         cx.edit(bs, bs, format!("\n{}\n", d.spec.join("\n")), 10, "R7-spec");
     }
+    if d.external_body && !d.expect_body.is_empty() {
+        let strip = |t: &str| t.chars().filter(|c| !c.is_whitespace()).collect::<String>();
+        if strip(&cx.f.text[bs + 1..be]) != strip(&d.expect_body.join(" ")) {
+            die(&format!("expect-body: the body of {} differs from the text its assumed contract was written for", fn_path));
+        }
+    }
     if d.external_body {
         // body is dropped: the function is an assumed stub with the real signature
         cx.edit(bs + 1, be, " unimplemented!() ".to_string(), 0, "R7-external-body");
@@ -774,6 +869,8 @@ fn process_fn(cx: &mut Ctx, sig: &syn::Signature, block: &Block, d: &FnDirective
         inner_done: vec![],
         closures_done: vec![],
         let_as_done: vec![false; d.let_as.len()],
+        let_as_hits: vec![0; d.let_as.len()],
+        map_fold_done: false,
         fn_path: fn_path.to_string(),
     };
     v.visit_block(block);
@@ -797,6 +894,9 @@ fn process_fn(cx: &mut Ctx, sig: &syn::Signature, block: &Block, d: &FnDirective
         if !v.let_as_done[k] {
             die(&format!("lost let-as `{}` in {}", la.var, fn_path));
         }
+    }
+    if d.map_fold.is_some() && !v.map_fold_done {
+        die(&format!("lost map-fold-loop in {}", fn_path));
     }
     for n in d.loops.keys() {
         if !v.loops_done.contains(n) {
@@ -1567,6 +1667,33 @@ fn main() {
                     cx.attrs(&x.attrs, (s, e), &[]);
                     cx.vis(&x.vis);
                     let fpath = format!("{}::{}", imd.selector, fd.name);
+                    // R22 (always on for a re-homed impl, i.e. `//@header` without `keep-types`): a type `Self::X` where `type X = T;` is an associated
+                    // type item of the extracted impl block is written as `T` (the same type by that very definition); an inherent impl cannot
+                    // name `Self::X`. Only type positions (signature, where clauses, annotations) are rewritten.
+                    if imd.header.is_some() && !imd.keep_types {
+                        struct AssocUse<'x> { hits: Vec<&'x syn::TypePath> }
+                        impl<'x> Visit<'x> for AssocUse<'x> {
+                            fn visit_type_path(&mut self, tp: &'x syn::TypePath) {
+                                if tp.qself.is_none() && tp.path.segments.len() == 2 && tp.path.segments[0].ident == "Self" {
+                                    self.hits.push(tp);
+                                }
+                                syn::visit::visit_type_path(self, tp);
+                            }
+                        }
+                        let mut au = AssocUse { hits: vec![] };
+                        au.visit_impl_item_fn(x);
+                        for tp in au.hits {
+                            let nm = tp.path.segments[1].ident.to_string();
+                            for ii in &im.items {
+                                if let ImplItem::Type(t) = ii {
+                                    if t.ident == nm.as_str() {
+                                        let (ts, te) = f.range(tp.span());
+                                        cx.edit(ts, te, f.slice(t.ty.span()).to_string(), 0, "R22-assoc-type");
+                                    }
+                                }
+                            }
+                        }
+                    }
                     let mut d = fd.clone();
                     // `self` by value in `impl Trait for &T` is a reference operand
                     if let syn::Type::Reference(_) = &*im.self_ty {
